@@ -42,6 +42,8 @@ func checkC18(c *Ctx) {
 	c.cloneBeforeMutate()
 	c.retentionFresh("sessions", "AckMsg", map[string]string{"OnComplete": "the completion callback is meant to be retained"})
 	c.retentionFresh("topics", "rnode", map[string]string{})
+	// per-object buffers and lists do not start as views of package-level memory
+	c.noSharedBacking()
 }
 
 // writeOnce: fields that are written under their lock exactly once per object, in the
